@@ -17,6 +17,8 @@ from __future__ import annotations
 import hashlib
 import itertools
 import json
+import sys
+import os
 import traceback
 
 from common import InfraError, LeanDriver
@@ -148,7 +150,7 @@ def row_bcast(n: size, m: size, dst: [R][n, m], v: [R][m]):
 '''
 
 MUTS = ["hi+1", "hi-1", "lo1", "scale2", "swapkind", "extra", "swapops", "const", "alias",
-        "iter", "leq", "negate", "off1", "drop", "op"]
+        "iter", "leq", "negate", "off1", "drop", "op", "addelse"]
 
 
 class Skip(Exception):
@@ -342,6 +344,12 @@ class KGen:
                 if s.orelse:
                     out.append(f"{pad}else:")
                     out += self.stmts(s.orelse, ind + 1)
+                elif self.mut == "addelse" and not self.mut_done:
+                    # near miss: the block has an else branch (a copy of the then branch) where the callee has none
+                    # (seeded change C05_1: the unifier skipped the block's else branch in that case)
+                    self.mut_done = True
+                    out.append(f"{pad}else:")
+                    out += self.stmts(s.body, ind + 1)
             elif isinstance(s, L.Pass):
                 out.append(f"{pad}pass")
             elif isinstance(s, L.Call):
@@ -794,6 +802,7 @@ class Checker:
         res_a = self.itp.run(pj_a, inputs) if inputs else []
         ctx.count("differential-inputs", len(inputs))
         found_input = False
+        found_unexplained = False
         agree = []
         for inp, rb, ra in zip(inputs, res_b, res_a):
             why = interp.compare(rb, ra)
@@ -802,6 +811,8 @@ class Checker:
                 continue
             found_input = True
             err = ra.get("err")
+            if os.environ.get("C05_DEBUG") and info.get("mut"):
+                print("C05DEBUG", info.get("mut"), replay["call"], "|", replay["block"], "| why:", why, "| err:", err, file=sys.stderr)
             k2 = None
             if err in ("assertFail", "nonPosSize", "oob"):
                 bad, _ = falsified(ans, input_valuations(cx, pj_b, inp))
@@ -813,17 +824,23 @@ class Checker:
                                       f"obligation {bad[k][0]} false)", dict(replay, input=inp, why=why))
                     continue
                 k2 = f"replace:call-trips-{err}-unexplained"
+                found_unexplained = True
             elif err:
                 k2 = f"replace:call-trips-{err}"
             else:
                 k2 = "replace:result-differs"
+            found_unexplained = True
             ctx.violation(k2, f"{replay['call']} in place of {replay['block']}: {why}",
                           dict(replay, input=inp, why=why, validator=ans["check"], diff=ans["diff"]))
 
         # --- the certificate
+        if info.get("mut"):
+            ctx.count(f"validator-{'accepted' if ans['check'] else 'rejected'}-mutated:{info['mut']}")
         if not ans["check"]:
             ctx.count("validator-rejected")
-            if not found_input:
+            # a failing input that is fully explained by a recorded finding (callee assertion not established) says
+            # nothing about WHY the validator rejects: the certificate rejection is reported on its own
+            if not found_unexplained:
                 ctx.violation("replace:certificate-rejected:" + (ans["diff"] or "?").split(":")[-1].strip()[:40],
                               f"checkReplace rejects {replay['call']} for {replay['block']}: {ans['diff']}",
                               dict(replay, diff=ans["diff"]), no_input=True)
@@ -969,7 +986,7 @@ def run_case(chk, ctx, exo, cands, cname, mut, idx, replay_src=None):
 def applicable(exo, ir):
     """mutations that change something in a kernel printed from this callee"""
     from exo.core.LoopIR import LoopIR, T
-    has = {"const": False, "lt": False, "binop": False, "multi": False, "read": False, "for": False}
+    has = {"const": False, "lt": False, "binop": False, "multi": False, "read": False, "for": False, "if_noelse": False}
 
     def ex(e, data):
         if isinstance(e, LoopIR.Const) and data:
@@ -1000,6 +1017,8 @@ def applicable(exo, ir):
                 st(s.body)
             elif isinstance(s, LoopIR.If):
                 ex(s.cond, False)
+                if not s.orelse:
+                    has["if_noelse"] = True
                 st(s.body)
                 st(s.orelse)
 
@@ -1020,6 +1039,8 @@ def applicable(exo, ir):
         out += ["swapops", "op"]
     if has["multi"]:
         out += ["drop"]
+    if has["if_noelse"]:
+        out += ["addelse"]
     if len(ranks) >= 2 and len(set(ranks)) < len(ranks):
         out += ["alias"]
     return out
